@@ -133,7 +133,7 @@ def limit_as(gb):
     return f
 
 
-def run_worker(binary, pkgdir, test, shard, nshards, tier, seed, outdir, budget, gomaxprocs, replay, extra_env, hard_timeout):
+def run_worker(binary, pkgdir, test, shard, nshards, tier, seed, outdir, budget, gomaxprocs, replay, extra_env, hard_timeout, race=False):
     env = goenv()
     env.update({
         "VERIF_SHARD": "%d/%d" % (shard, nshards), "VERIF_TIER": tier, "VERIF_SEED": str(seed),
@@ -153,11 +153,34 @@ def run_worker(binary, pkgdir, test, shard, nshards, tier, seed, outdir, budget,
         try:
             p = subprocess.run([binary, "-test.run", "^%s$" % test, "-test.timeout", "0", "-test.count", "1"],
                                cwd=pkgdir, env=env, stdout=lf, stderr=subprocess.STDOUT, timeout=hard_timeout,
-                               preexec_fn=limit_as(24))
+                               preexec_fn=None if race else limit_as(24))  # the race runtime maps terabytes of address space
             rc = p.returncode
         except subprocess.TimeoutExpired:
             rc = -9
     return shard, rc, log
+
+
+def race_reports(log):
+    """Extract (fingerprint, detail) pairs from 'WARNING: DATA RACE' blocks of a worker log."""
+    out, seen = [], set()
+    try:
+        text = open(log, errors="replace").read()
+    except Exception:
+        return out
+    for block in text.split("WARNING: DATA RACE")[1:]:
+        block = block.split("==================")[0]
+        funcs = re.findall(r"^  ([\w./()*\[\]-]+)\(\)\s*$", block, re.M)
+        own = [f for f in funcs if "sync_gateway" in f and "verifshim" not in f
+               and not re.search(r"/\w+\.\(?\*?(c\d\d|TestVerif)", f)][:2]
+        if not own:
+            # both access sites lie in harness / shim code: a harness defect, not a finding about the code under test
+            continue
+        fp = "+".join(f.split("/")[-1] for f in own)
+        if fp in seen:
+            continue
+        seen.add(fp)
+        out.append((fp, "WARNING: DATA RACE" + block[:2500]))
+    return out
 
 
 def run_part(part, binary, checks, tier, seed, rundir, idx, replay=None, shards_override=None, budget_override=None):
@@ -172,11 +195,25 @@ def run_part(part, binary, checks, tier, seed, rundir, idx, replay=None, shards_
     par = min(nshards, part.get("parallel", NCPU))
     with ThreadPoolExecutor(max_workers=par) as ex:
         futs = [ex.submit(run_worker, binary, pkgdir, part["test"], s, nshards, tier, seed, outdir, budget,
-                          part.get("gomaxprocs"), replay, part.get("env"), hard) for s in range(nshards)]
+                          part.get("gomaxprocs"), replay, part.get("env"), hard, bool(vcfg.get("race"))) for s in range(nshards)]
         results = [f.result() for f in futs]
     reports, errors = [], []
     for shard, rc, log in results:
         rp = os.path.join(outdir, "shard-%d.json" % shard)
+        if vcfg.get("race"):
+            # data races reported by the Go race detector in the free-running pass become violations; the test binary
+            # exits non-zero because of them, which is not an engine error
+            races = race_reports(log)
+            if races and os.path.exists(rp):
+                rep = json.load(open(rp))
+                rep["violations"] = rep.get("violations") or []
+                prop = rep.get("property", "")
+                for fp, detail in races:
+                    rep["violations"].append({"fingerprint": "%s/data-race/%s" % (prop, fp), "detail": detail, "replay": None})
+                rep["counters"] = rep.get("counters") or {}
+                rep["counters"]["race_reports"] = len(races)
+                reports.append(rep)
+                continue
         if rc != 0 or not os.path.exists(rp):
             tail = ""
             try:
